@@ -121,9 +121,9 @@ def index_vals(rng, n, kind):
     return out
 
 
-def gen_data(rng, scale):
+def gen_data(rng, scale, size):
     ps = []
-    nmax = scale(200, 10000)
+    nmax = size(200, 10000)
     for n in lengths(rng, scale(10, 60), nmax):
         for rep in range(scale(3, 8) if n <= 8 else 1):
             kind = rng.choice(["const", "strict", "runs", "runs", "decr", "extreme", "wide", "rand"])
@@ -168,7 +168,7 @@ def gen_data(rng, scale):
                         timestep_type=rng.choice([0, 1] if ok else [0, 1, 1, 2, -1])))
 
     # var2h: irregular stamps (seconds), series shorter than a period, decreasing / duplicated stamps, long spans
-    for n in list(range(0, 9)) + [rng.randint(9, scale(60, 2000)) for _ in range(scale(8, 40))]:
+    for n in list(range(0, 9)) + [rng.randint(9, size(60, 2000)) for _ in range(scale(8, 40))]:
         for rep in range(scale(4, 10) if n <= 8 else 1):
             kind = rng.choice(["short", "regular", "irregular", "irregular", "dup", "decr", "gappy", "sparse"])
             t0 = rng.choice([0, 1, 3599, 3600, 86400 * 365 * 30 + 17, 1700000000])
@@ -236,10 +236,10 @@ def fmat(rng, n, m, cls):
     return [fvals(rng, m, cls) for _ in range(n)]
 
 
-def gen_stat(rng, scale):
+def gen_stat(rng, scale, size):
     ps = []
-    for n in lengths(rng, scale(6, 30), scale(40, 300)):
-        for m in ([0, 1, 2, 3, 5] if n <= 8 else [rng.randint(1, scale(12, 60))]):
+    for n in lengths(rng, scale(6, 30), size(40, 300)):
+        for m in ([0, 1, 2, 3, 5] if n <= 8 else [rng.randint(1, size(12, 60))]):
             for rep in range(scale(2, 5) if n <= 8 else 1):
                 fc = rng.choice(FCLASSES)
                 oc = rng.choice(FCLASSES)
@@ -254,7 +254,7 @@ def gen_stat(rng, scale):
     ps.append(P("dscore", "sim_1d", obs=A([1.0, 2.0, 3.0]), sim=A([1.0, 2.0, 3.0])))
     ps.append(P("dscore", "mismatch", obs=A([1.0, 2.0]), sim=A([[1.0, 2.0], [1.0, 3.0], [3.0, 4.0]])))
 
-    for n in lengths(rng, scale(10, 50), scale(300, 10000)):
+    for n in lengths(rng, scale(10, 50), size(300, 10000)):
         for rep in range(scale(4, 10) if n <= 8 else 1):
             kind = rng.choice(["unif", "unif", "sorted", "outside", "nan", "inf", "edge01", "ties", "neg"])
             if kind in ("unif", "sorted"):
@@ -274,7 +274,7 @@ def gen_stat(rng, scale):
     ps.append(P("anderson_darling_test", "2d", u=A([[0.1, 0.2], [0.3, 0.4]])))
 
     for order in range(0, 12):
-        for n in [0, 1, 2, 3, 5, 8] + [rng.randint(9, scale(200, 5000)) for _ in range(scale(1, 3))]:
+        for n in [0, 1, 2, 3, 5, 8] + [rng.randint(9, size(200, 5000)) for _ in range(scale(1, 3))]:
             for rep in range(scale(1, 3)):
                 pc = rng.choice(["fin", "fin", "nan", "inf", "huge", "zero"])
                 params = [enc(rng.uniform(-1, 1)) for _ in range(order)] if pc == "fin" else fvals(rng, order, pc)
@@ -291,7 +291,7 @@ def gen_stat(rng, scale):
     ps.append(P("armodel_residual", "x_2d", params=A([0.9]), x=A([[1.0, 2.0], [3.0, 4.0]])))
     ps.append(P("armodel_sim", "x_scalar", params=A([0.9]), x=A(1.0)))
 
-    for n in lengths(rng, scale(6, 30), scale(60, 400)):
+    for n in lengths(rng, scale(6, 30), size(60, 400)):
         for m in ([0, 1, 2, 3, 4] if n <= 8 else [rng.randint(1, 6)]):
             for rep in range(scale(2, 5) if n <= 8 else 1):
                 fc = rng.choice(FCLASSES)
@@ -419,11 +419,11 @@ def flowdir(rng, nrows=None, ncols=None, kind=None, maxdim=6):
     return {"nrows": nrows, "ncols": ncols, "data": data}, kind
 
 
-def gen_gis(rng, scale):
+def gen_gis(rng, scale, size):
     ps = []
     ptcls = ["inside", "centre", "edge", "around", "nan", "inf", "huge", "mixed", "neg"]
     # ---- Grid methods
-    for n in lengths(rng, scale(4, 20), scale(40, 2000)):
+    for n in lengths(rng, scale(4, 20), size(40, 2000)):
         for rep in range(scale(4, 10) if n <= 8 else 1):
             g, gk = geom(rng)
             pc = rng.choice(ptcls)
@@ -451,7 +451,7 @@ def gen_gis(rng, scale):
     ps.append(P("cell2rowcol", "cells_scalar", g=g33, cells=A(4, "int64")))
 
     # ---- polygons
-    for n in lengths(rng, scale(3, 15), scale(40, 500)):
+    for n in lengths(rng, scale(3, 15), size(40, 500)):
         for k in ([0, 1, 2, 3, 4, 6] if n <= 8 else [rng.randint(3, 12)]):
             for rep in range(scale(1, 3)):
                 pc, vc = rng.choice(ptcls[3:] + ["around"]), rng.choice(["around", "around", "nan", "inf", "huge", "ties"])
@@ -478,7 +478,7 @@ def gen_gis(rng, scale):
         ps.append(P("cells_inside_polygon", f"k{k}/{gk}", g=g, polygon=A(coords(rng, g, k, "around"), shape=[k, 2])))
 
     # ---- catchments
-    maxdim = scale(6, 12)
+    maxdim = size(6, 12)
     for _ in range(scale(150, 1200)):
         fd, fk = flowdir(rng, maxdim=maxdim)
         ntot = fd["nrows"] * fd["ncols"]
@@ -594,5 +594,7 @@ def gen_gis(rng, scale):
     return ps
 
 
-def gen_all(rng, scale):
-    return gen_data(rng, scale) + gen_stat(rng, scale) + gen_gis(rng, scale)
+def gen_all(rng, scale, size=None):
+    """`scale(q, t)` = number of repetitions, `size(q, t)` = largest lengths / grid sides (default: same as scale)"""
+    size = size or scale
+    return gen_data(rng, scale, size) + gen_stat(rng, scale, size) + gen_gis(rng, scale, size)
